@@ -148,14 +148,25 @@ def number(ops):
     return out
 
 
-def gen_table(rng, ops, ntopics, nconsumers, p=0.5):
+def gen_table(rng, ops, ntopics, nconsumers, p=0.5, cyclic=False):
+    """cyclic: a handler may publish to ANY topic, its own and lower ones included (A -> B -> A ...); the chains end because
+    every published value is new and at most 5 handler entries are made"""
     tab = {}
     nxt = [1000]
     frontier = [(o[1], o[2]) for o in ops if o[0] == "P"]
     while frontier:
         t, v = frontier.pop()
         for c in range(1, nconsumers + 1):
-            if t < ntopics and rng.random() < p:
+            if cyclic:
+                if len(tab) < 5 and rng.random() < p:
+                    outs = []
+                    for _ in range(rng.randint(1, 2)):
+                        nxt[0] += 1
+                        t2 = rng.choice([x for x in range(1, ntopics + 1) if x != t])      # another topic, higher or lower
+                        outs.append((t2, nxt[0]))
+                        frontier.append((t2, nxt[0]))
+                    tab[(c, v)] = outs
+            elif t < ntopics and rng.random() < p:
                 outs = []
                 for _ in range(rng.randint(1, 2)):
                     nxt[0] += 1
@@ -198,6 +209,22 @@ def gen_cases(tier, rng):
             ops.append(("P", rng.randint(1, nt)))
         ops = number(ops)
         cases.append((gen_table(rng, ops, nt, nc, rng.choice([0.0, 0.3, 0.7])), ops))
+    # handlers that publish back to the topic they were called for or to lower ones (publish cycles), then late subscribers
+    for _ in range(300 if tier == "quick" else 4000):
+        nt, nc = rng.randint(2, 3), rng.randint(1, 3)
+        ops, seen = [], set()
+        for _ in range(rng.randint(2, 8)):
+            if rng.random() < 0.45:
+                c = rng.randint(1, nc + 1)
+                free = [t for t in range(1, nt + 1) if (c, t) not in seen]
+                if free:
+                    ts = rng.sample(free, rng.randint(1, len(free)))
+                    seen.update((c, t) for t in ts)
+                    ops.append(("S", c, ts))
+                    continue
+            ops.append(("P", rng.randint(1, nt)))
+        ops = number(ops)
+        cases.append((gen_table(rng, ops, nt, nc, 0.5, cyclic=True), ops))
     return cases, n_ex, maxlen
 
 
